@@ -36,6 +36,13 @@ CLAIMED["C18"] = (
     "DESIGN.md section 3, C18",
 )
 
+CLAIMED["C17"] = (
+    "panic-site census over go/ssa + recover-boundary coverage fixpoint on the module call graph (VTA) + syntax-level loop/blocking census",
+    "Decides that every function reachable from the public API either installs a verified recover boundary (deferred function that calls recover() directly, assigns the error result the recover block returns) or is only called from protected functions, and that the few unprotected frames contain no undischarged panic site or fallible dependency call; no goroutine, no blocking operation other than the event send, only ranges/counted loops, and the indexer accepts the empty document. Right level: 'never panics' over all byte strings cannot be sampled, but 'every panic is caught by a boundary that returns an error' is a coverage fact of the call graph.",
+    "Panics, blocking and non-termination inside OPA, json-gold and yaml.v3 are only covered in so far as the boundary catches panics; termination of the module's recursive functions over finite input trees is listed as a census, not decided. One named API precondition (non-nil compiled profile). " + TRUST,
+    "DESIGN.md section 3, C17",
+)
+
 # properties without a check yet (or declined), with the reason
 NOT_APPLICABLE = {
 }
